@@ -1,7 +1,7 @@
 """C06 - noisy simulation is physical, backend-independent and switchable.
 
 J : random circuits (<= 3 qubits) with noise attached to their gates from the dyadic grid (depolarizing p in
-    {0, 3/16, 3/8, 3/4}, Pauli errors, photon loss r in {0, 1/4, 1/2, 1}, before or after the gate, control and target
+    {0, 3/16, 3/8, 3/4, 1}, Pauli errors, photon loss r in {0, 1/4, 1/2, 1}, before or after the gate, control and target
     separately), given per gate and through noise MAPS (assign_noise); compiled by the real density-matrix compiler and by
     the real stabilizer compiler (mixture) with noise simulation on, plus the variants zero strength / empty map /
     switched off.  Trace_Noise.tla: PSD, TraceOK (= product of survival probabilities, computed by the spec from the
@@ -17,7 +17,7 @@ import numpy as np
 from engine import circuits as cz
 from engine import project as pj
 
-DEP = [(0, 1), (3, 16), (3, 8), (3, 4)]
+DEP = [(0, 1), (3, 16), (3, 8), (3, 4), (1, 1)]      # (1, 1): the endpoint of [0, 1]; weights 1/3 are reconstructed as rationals
 LOSS = [(0, 1), (1, 4), (1, 2), (1, 1)]
 
 
